@@ -309,6 +309,10 @@ struct Model
   }
 };
 
+// storage for the shell object (filled with a non-zero pattern)
+void* garbage_block(size_t n);
+void release_block(void* p);
+
 // hooks called by the mock Dezyne-generated component
 void component_constructed(void* comp, const dzn::locator& loc);
 
